@@ -73,6 +73,10 @@ func msmPoints(cls string, n int, p *prg) []banderwagon.Element {
 func msmScalars(cls string, n, smallPct int, p *prg) []*big.Int {
 	out := make([]*big.Int, n)
 	for i := 0; i < n; i++ {
+		if cls == "mont" { // single-word Montgomery forms
+			out[i] = montWords(new(big.Int).SetUint64(uint64(p.intn(1<<30))<<34 | uint64(i+1)))
+			continue
+		}
 		var v *big.Int
 		if smallPct > 0 && (i*100)/max1(n) < smallPct {
 			v = big.NewInt(int64(1 + p.intn(15)))
